@@ -701,5 +701,38 @@ Proof.
     + rewrite (Hvoth n Hne) in Hv'. destruct (iv_run _ _ HI n v' Hv' Hr) as (j & y & Hy & Hn & Hd & Hp).
       exists j, y. rewrite Hoth; [auto|]. intros ->. congruence.
 Qed.
+
+Lemma nf_vst s th e s' : step_core s th e = Some s' -> nf_ev e = true -> vst_bwd s s'.
+Proof. intros H Hnf. destruct (nf_run _ _ _ _ H Hnf) as [Ev _]. intros n v Hv. rewrite Ev in Hv. eauto. Qed.
+
+Lemma c_inst_nf s o th e s' : Rc cs s o -> Inv s o -> step_core s th e = Some s' -> nf_ev e = true ->
+  c_inst s' (obs_pre cs o (th, e)).
+Proof.
+  intros HRc HI H Hnf j x' xo' Hx' Hxo'. pose proof (nf_vst _ _ _ _ H Hnf) as HV.
+  unfold step_core in H. destruct e; try discriminate Hnf.
+  all: cbn [obs_pre ev_inst fst snd] in *; rewrite <- ?(rc_th _ _ _ HRc th) in *.
+  all: kind_cases H.
+  all: unfold set_pc in Hx'; cbn in Hx'; autorewrite with sup in Hx'; autorewrite with obsf in Hxo'; cbn in Hxo'.
+  1:{ rewrite get_set in Hx'. rewrite (get_set j i) in Hxo'. destruct (N.eqb_spec i j).
+      - injection Hx' as <-. injection Hxo' as <-. constructor; cbn; auto; discriminate.
+      - apply (PI_vst s _ _ _ HV), (iv_inst _ _ HI _ _ _ Hx' Hxo'). }
+  all: match goal with E' : get ?i (insts _) = Some ?x |- _ =>
+         destruct (N.eqb_spec i j);
+         [ subst j; rewrite ?E' in Hx'; cbn in Hx'; try (injection Hx' as <-);
+           rewrite ?N.eqb_refl in Hxo';
+           destruct (get i (oi o)) as [xo|] eqn:Exo; cbn in Hxo'; [injection Hxo' as <-|discriminate Hxo'];
+           apply (PI_vst s _ _ _ HV);
+           destruct (iv_inst _ _ HI _ _ _ E' Exo) as [A B C D E_ F G I]
+         | rewrite ?(proj2 (N.eqb_neq i j)) in Hxo' by assumption;
+           apply (PI_vst s _ _ _ HV), (iv_inst _ _ HI _ _ _ Hx' Hxo') ]
+       end.
+  all: try (destruct s1).
+  all: try (constructor; unfold nl in *; cbn; rewrite ?E2 in *; cbn in *; auto; try discriminate; try (intros; discriminate); fail).
+  - split_andb. subst i1. destruct (iv_pend _ _ HI th i (or_introl E0)) as (y & Hy & _ & Hb & _).
+    assert (y = i0) by congruence. subst y. unfold badpc in Hb. apply orb_false_iff in Hb. destruct Hb as [Hb _].
+    constructor; cbn; auto. rewrite Hb. discriminate.
+  - constructor; cbn; auto.
+    + intros _. apply B. match goal with E : alive i0 = true |- _ => rewrite E end. reflexivity.
+Qed.
 (*STOP*)
 End RelC03.
